@@ -325,11 +325,19 @@ def gen_dataset(prop: str, idx: int) -> dict:
     if rng.random() < 0.5:
         ks = list(PV_KEYS)
         mapping = {k: f"{k}_{rng.randrange(100)}" for k in ks}
-        if rng.random() < 0.3:
+        kind = rng.random()
+        if kind < 0.3:
             # a permutation-like renaming: user names that collide with other
             # application names
             a, b = rng.sample(ks, 2)
             mapping[a], mapping[b] = b + "_u", a + "_u"
+        elif kind < 0.65:
+            # a partial mapping: some fields keep their default name (every
+            # field of PVEventMappingConfig has a default)
+            for k in rng.sample(ks, rng.randint(1, 4)):
+                del mapping[k]
+            if rng.random() < 0.5:
+                mapping.pop("previousEventIds", None)
     ds = {
         "id": f"{prop}:{idx}", "files": files, "sequencer": seq,
         "mapping": mapping, "batch_size": rng.choice([1, 2, 3, 5, 1000]),
